@@ -305,6 +305,24 @@ def run(ctx):
     if obs:
         ctx.cov["observations"] = obs
 
+    # an upload whose call ends while the receive path is cutting the next block out of the request; the application then re-uses
+    # its request: every block on the wire carries the upload's own bytes (driver: c12 bwpark)
+    pout = os.path.join(ctx.work, "park.ndjson")
+    vf.drv(ctx, ["c12park", pout], timeout=600)
+    parks = vf.read_ndjson(pout)
+    if not parks or not all(p_["done"] for p_ in parks):
+        raise vf.Machinery("the parked-upload scenario did not run to its end: %s" % [p_["done"] for p_ in parks])
+    pbad, g, d = vf.judge_records(ctx, "bw", "RecC04park", "RecC04park.cfg", parks, shards=1, timeout=300)
+    ctx.add("states", d)
+    ctx.add("transitions", g)
+    ctx.add("traces_validated_against_impl", len(parks))
+    ctx.cov["uploads_ended_while_a_block_was_being_cut"] = len(parks)
+    for clause, idxs in sorted(pbad.items()):
+        p0 = parks[idxs[0]]
+        vf.report(ctx, clause, {"mode": "upload-ended-in-mid-block"},
+                  "%d run(s): the call of a block-wise upload ended while the next block was being cut, the application re-used its request, and %d of the %d blocks on the wire for the upload's token carry other bytes than the upload's own" % (len(idxs), p0["fails"], p0["copies"]),
+                  {"trace": {k: p0[k] for k in p0 if k != "log"}, "cmd": "bin/check C04 --tier %s" % ctx.tier})
+
     def mutate(t, rng):
         if t["op"] not in ("conc", "obsbw", "mix") and t["app"] and t["app"][0]["len"] > 1 and t["p"]["l"] > 1:
             app = [dict(d) for d in t["app"]]
